@@ -32,7 +32,8 @@ ASSUMPTIONS = [
 ]
 PDA_LIMIT = 60
 KINDS = {"dfa": (B.mk_dfa, B.snap_dfa), "nfa": (B.mk_nfa, B.snap_nfa), "pda": (BP.mk_pda, BP.snap_pda), "tm": (BT.mk_tm, BT.snap_tm),
-         "cfg": (BC.mk_cfg, BC.snap_cfg), "cnf": (BC.mk_cfg, BC.snap_cfg), "re": (BR.mk, BR.snap)}
+         "cfg": (BC.mk_cfg, BC.snap_cfg), "cnf": (BC.mk_cfg, BC.snap_cfg), "re": (BR.mk, BR.snap),
+         "wordset": (lambda a: set(a), lambda o: sorted(o))}
 
 
 def canon_of(kind, spec):
@@ -44,6 +45,8 @@ def canon_of(kind, spec):
         return BT.canon(spec)
     if kind in ("cfg", "cnf"):
         return BC.canon(spec)
+    if kind == "wordset":
+        return sorted(spec)
     return spec
 
 
@@ -103,6 +106,10 @@ REG = {
     "nfa_simulates_all_short_words": (["nfa"], lambda N: [run_or_none(NA.nfa_simulate_word(N, w)) for w in G.all_words(sorted(N.Sigma), 3)]),
     "regexp_accepts_all_short_words": (["re"], lambda r: [RA.regexp_accepts_word(r, w) for w in G.all_words(["a", "b"], 4)]),
     "pda_accepts_all_short_words": (["pda"], lambda P: [PA.pda_accepts_word(P, w) for w in G.all_words(sorted(P.Sigma), 3)]),
+    # the generic generator on a language given as a set of words (the caller's set is an operand), and language comparison on languages of 2000 words
+    "generate_language_wordset": (["wordset", "n"], lambda L, n: sig(LG.generate_language(L, n))),
+    "check_equal_languages_wordset": (["wordset", "dfa"], lambda L, D: [LG.check_equal_languages(L, D, 1), LG.check_equal_languages(L, D, 4)]),
+    "check_equal_languages_long": (["dfa"], lambda D: LG.check_equal_languages(D, DA.dfa_minimize(D), 10 if len(D.Sigma) <= 2 else 6)),
     "dfa_words_up_to_n": (["dfa", "n"], lambda D, n: sig(DA.dfa_words_up_to_n(D, n))),
     "dfa_minimize": (["dfa"], lambda D: sig(DA.dfa_minimize(D))),
     "dfa_quotient": (["dfa"], lambda D: sig(DA.dfa_quotient(D))),
@@ -415,6 +422,8 @@ def op_cases(draw, tier, names=None):
             args[k] = draw(GT.tm_specs(max_states=4, sigma=sigma))
         elif k == "n":
             args[k] = draw(st.integers(0, 4))
+        elif k == "wordset":
+            args[k] = sorted(set(draw(st.lists(st.text(alphabet=sigma, max_size=5), max_size=8))))
     S = sigma
     for k in kinds:
         if k == "w":
@@ -445,7 +454,7 @@ def logging_cases(draw, tier):
     return draw(op_cases(tier))
 
 
-HASH_SENSITIVE = ["nfa_accepts_all_short_words", "nfa_accepts_all_short_words", "nfa_simulates_all_short_words", "pda_accepts_all_short_words", "dfa_minimize", "dfa_quotient", "dfa_hopfcroft", "dfa_minimize_size", "dfa_to_regexp", "dfa_isomorphic", "dfa_isomorphic1", "nfa_to_dfa", "nfa_simulate_word",
+HASH_SENSITIVE = ["check_equal_languages_long", "check_equal_languages_long", "nfa_accepts_all_short_words", "nfa_accepts_all_short_words", "nfa_simulates_all_short_words", "pda_accepts_all_short_words", "dfa_minimize", "dfa_quotient", "dfa_hopfcroft", "dfa_minimize_size", "dfa_to_regexp", "dfa_isomorphic", "dfa_isomorphic1", "nfa_to_dfa", "nfa_simulate_word",
                   "nfa_words_up_to_n", "nfa_accepts_word", "cfg_to_chomsky", "cfg_eliminate_unit_rules", "cfg_words_up_to_n", "cfg_accepts_word", "cfg_cyk_matrix", "cfg_derive_word",
                   "pda_to_cfg", "pda_to_push_pop", "pda_accepts_word", "pda_words_up_to_n", "pda_simulate_word", "regexp_to_nfa", "dfa_union", "dfa_reverse", "dfa_no_extend",
                   "dfa_remove_unreachable_states", "check_dfa_minimal", "check_nfa2dfa", "check_dfa_union", "check_dfa_language_from_words", "cfg_apply_chomsky", "print_dfa",
